@@ -1,6 +1,29 @@
 """Per-property configuration of ./check: theorem module, correspondence domains."""
 
+PKT_RULE = 'boundary product of <= 2 options over delta/length sets {0,1,12,13,14,243,244,255,256,268,269,270,1000,65535} x {0,1,12,13,14,268,269,270,1000} x token 0/1/8 x payload 0/1/300; values at 65803..65806; all 256 first header bytes; all code bytes; limits L-1/L/L+1 via payload and via option; random structured messages; 20000 random API call sequences + setter permutations; decoder: every byte string of <= 2 bytes after 3 headers and boundary strings after 12, every option header byte x extension values, prefixes and single-byte corruptions of well-formed messages, random strings. Non-trivial = well-formed message reaching the encoder body / datagram accepted by the decoder; distinct = distinct protocol lines.'
+
 PROPS = {
+    'C01': dict(
+        lean='CoapLite.Props.C01', domains=['PKT'], rule=PKT_RULE,
+        explanation='enc = RFC 7252 wire image and dec(enc m) = m proved for all well-formed packets; Packet/Codec model tied by domain PKT in both overflow modes',
+    ),
+    'C02': dict(
+        lean='CoapLite.Props.C02', domains=['PKT'], line_filter=r'PKT dec ', rule=PKT_RULE,
+        explanation='enc(dec b) = b up to the two permitted droppings, for every accepted byte string',
+    ),
+    'C03': dict(
+        lean='CoapLite.Props.C03', domains=['PKT'], line_filter=r'PKT dec ', rule=PKT_RULE,
+        explanation='decoder total (never panic), complete for RFC framing, sound, named rejection classes; oracle = independent three-valued reference parser',
+    ),
+    'C04': dict(
+        lean='CoapLite.Props.C04', domains=['PKT'], line_filter=r'PKT enc ', rule=PKT_RULE,
+        explanation='exact wire length, limit iff, refusal of over-long option values',
+    ),
+    'C06': dict(
+        lean='CoapLite.Props.C06', domains=['UINT'],
+        rule='exhaustive 8- and 16-bit values; 32/64-bit at every 2^k +-1 plus random; decode of all byte strings <= 2 bytes (16-bit) and boundary strings at other widths, random strings of length 0..10; random Unicode strings with truncations / bit flips / overlongs / surrogates; random typed accessor sequences. Non-trivial = value >= 256 / non-empty decodable string / accessor sequence.',
+        explanation='minimal big-endian uint proved against Spec.minimalBE; UTF-8 via core ByteArray.IsValidUTF8; accessors via OptMap lemmas',
+    ),
     'C05': dict(
         lean='CoapLite.Props.C05', domains=['TBL'],
         rule='exhaustive: every table is queried over its whole finite domain (65536 option numbers, 65536 content-format ids, 256 code bytes, 256 first header bytes x 4 types, text forms); a case is non-trivial when the number is assigned in the registry or exercises a header byte; distinct = distinct protocol lines',
